@@ -277,7 +277,8 @@ VNondet(r) ==
         cv  == CompileVerdict(r.q, reg, LoOf(r), HiOf(r))
     IN  IF cv.v # "accept" THEN Acc
         ELSE LET segs    == Parse(r.q, FALSE).v
-                 allowed == AllowedResults(segs, r.doc, reg)
+                 \* wide documents (r.wide): through the visit orders of containers only (DescentDefs, T8e: the same set)
+                 allowed == IF Has(r, "wide") /\ r.wide THEN AllowedResultsC(segs, r.doc, reg) ELSE AllowedResults(segs, r.doc, reg)
                  got     == {r.outputs[k] : k \in 1..Len(r.outputs)}
              IN  IF got \ allowed # {} THEN
                      Rej("C17 an ordering RFC 9535 does not permit was produced", <<ToJson(CHOOSE x \in got \ allowed : TRUE)>>)
